@@ -197,7 +197,10 @@ class World:
     # ---- run
     def run(self, prog):
         self.hooks.start(self)
+        si = pre = None
         for step in prog:
+            # nothing of the previous step may keep an evicted / dropped object alive while this step runs
+            si = pre = None
             pre = self.hooks.pre(self, step)
             fn = getattr(self, "op_" + step[0])
             si = fn(step)
